@@ -776,7 +776,7 @@ func (multi *MultiEpoch) processSlotTransactions(
 			}
 		}
 
-		if !gsfaReadersLoaded { // Only needed if gsfaReaders not loaded, otherwise handled in the main branch
+		if !gsfaReadersLoaded && len(includeKeys) > 0 { // Only needed if gsfaReaders not loaded, otherwise handled in the main branch; an empty include list is no constraint
 			hasOne := false
 			for _, pkey := range includeKeys {
 				ok, err := tx.HasAccount(pkey)
